@@ -43,6 +43,7 @@ type Op struct {
 	FA int    `json:"fa,omitempty"` // C18: fail the FA-th backend call of this request (1-based)
 	FK string `json:"fk,omitempty"` // C18: error kind: generic | notfound | found
 	RQ string `json:"rq,omitempty"` // junk appended to the request's raw query (malformed escapes, ';' separators)
+	X  string `json:"x,omitempty"`  // 2FA steps with a recovery code: what the code field holds at the same time (totp | smssess | junk)
 	JM string `json:"jm,omitempty"` // JSON mode: how the encoded body is spoiled (bool | num | null | trunc | array | nested)
 }
 
@@ -595,9 +596,25 @@ func (m *Machine) tokenReq(b int, path, field, tok string) harness.Req {
 	return q
 }
 
-func codeFields(op Op, secret string) map[string]string {
+func (m *Machine) codeFields(op Op, secret string) map[string]string {
 	if op.F {
-		return map[string]string{"recovery_code": secret}
+		f := map[string]string{"recovery_code": secret}
+		// Both fields at once: the recovery code decides (it is looked at first), the
+		// code field rides along. op.X names what it holds: the account's current TOTP
+		// code or the SMS code the session holds.
+		switch op.X {
+		case "totp":
+			if c, ok := m.resolveSecret(Op{K: op.K, B: op.B, A: op.A, SA: op.A, Src: "totp"}); ok {
+				f["code"] = c
+			}
+		case "smssess":
+			if c, ok := m.resolveSecret(Op{K: op.K, B: op.B, A: op.A, SA: op.A, Src: "smssess"}); ok {
+				f["code"] = c
+			}
+		case "junk":
+			f["code"] = "000000"
+		}
+		return f
 	}
 	return map[string]string{"code": secret}
 }
@@ -688,9 +705,9 @@ func (m *Machine) build(op Op, pid, secret string) *harness.Req {
 	case "totpconfirm":
 		return &harness.Req{Browser: b, Method: "POST", Path: P("/2fa/totp/confirm"), Form: map[string]string{"code": secret}}
 	case "totpremove":
-		return &harness.Req{Browser: b, Method: "POST", Path: P("/2fa/totp/remove"), Form: codeFields(op, secret)}
+		return &harness.Req{Browser: b, Method: "POST", Path: P("/2fa/totp/remove"), Form: m.codeFields(op, secret)}
 	case "totpvalidate":
-		q := harness.Req{Browser: b, Method: "POST", Path: P("/2fa/totp/validate"), Form: codeFields(op, secret)}
+		q := harness.Req{Browser: b, Method: "POST", Path: P("/2fa/totp/validate"), Form: m.codeFields(op, secret)}
 		m.withRedir(&q, op.S2)
 		return &q
 	case "smssetup":
@@ -698,9 +715,9 @@ func (m *Machine) build(op Op, pid, secret string) *harness.Req {
 	case "smsconfirm":
 		return &harness.Req{Browser: b, Method: "POST", Path: P("/2fa/sms/confirm"), Form: map[string]string{"code": secret}}
 	case "smsremove":
-		return &harness.Req{Browser: b, Method: "POST", Path: P("/2fa/sms/remove"), Form: codeFields(op, secret)}
+		return &harness.Req{Browser: b, Method: "POST", Path: P("/2fa/sms/remove"), Form: m.codeFields(op, secret)}
 	case "smsvalidate":
-		q := harness.Req{Browser: b, Method: "POST", Path: P("/2fa/sms/validate"), Form: codeFields(op, secret)}
+		q := harness.Req{Browser: b, Method: "POST", Path: P("/2fa/sms/validate"), Form: m.codeFields(op, secret)}
 		m.withRedir(&q, op.S2)
 		return &q
 	case "smsresend":
